@@ -142,14 +142,23 @@ Fixpoint add_checks (t : mtable) (c : catalog) (ks : list (string * string)) : r
       else add_checks (mkMTable (tb_name t) (tb_cols t) (tb_pk t) (tb_indexes t) (tb_fks t) (tb_checks t ++ [(n, e)])) c r
   end.
 
-(* adding one explicit key (unique or not) to a table: CREATE INDEX, UNIQUE KEY clause [M4] *)
+(* adding one explicit key (unique or not) to a table: CREATE INDEX, UNIQUE KEY clause [M4].
+   The index list is kept in three segments — unique keys, plain keys, implicitly created keys — each in
+   creation order; a catalog has no key order, the layout only makes catalogs comparable with (=). *)
+Definition seg_unique (l : list mindex) : list mindex := filter (fun i => (ix_unique i && negb (ix_generated i))%bool) l.
+Definition seg_plain (l : list mindex) : list mindex := filter (fun i => (negb (ix_unique i) && negb (ix_generated i))%bool) l.
+Definition seg_generated (l : list mindex) : list mindex := filter ix_generated l.
+Definition insert_index (i : mindex) (l : list mindex) : list mindex :=
+  if ix_unique i then seg_unique l ++ [i] ++ seg_plain l ++ seg_generated l
+  else seg_unique l ++ seg_plain l ++ [i] ++ seg_generated l.
+
 Definition add_index (t : mtable) (uniq : bool) (name : string) (cols : list string) : result mtable engine_error :=
   if (has_index name t || String.eqb name "PRIMARY")%bool
   then Err (EErr "M4a duplicate key name (1061)" name)
   else if negb (nonempty cols && all_cols_exist cols t)%bool
   then Err (EErr "M4b key column does not exist in the table (1072)" name)
   else Ok (mkMTable (tb_name t) (tb_cols t) (tb_pk t)
-             (drop_redundant_generated cols (tb_indexes t) ++ [mkMIndex name cols uniq false])
+             (insert_index (mkMIndex name cols uniq false) (drop_redundant_generated cols (tb_indexes t)))
              (tb_fks t) (tb_checks t)).
 
 Definition add_pk (t : mtable) (cols : list string) : result mtable engine_error :=
@@ -346,12 +355,19 @@ Definition run (c : catalog) (l : list stmt) : run_outcome := run_from 0 c l.
 Definition first_pk (ks : list table_constraint) : option (list string) :=
   match filter is_pk ks with CPrimaryKey _ cols :: _ => Some cols | _ => None end.
 
-Definition explicit_indexes (table : string) (ks : list table_constraint) : list mindex :=
+Definition unique_indexes (table : string) (ks : list table_constraint) : list mindex :=
   flat_map (fun k => match k with
                      | CUnique n cols => [mkMIndex (build_unique_constraint_name table cols n) cols true false]
+                     | _ => []
+                     end) ks.
+Definition plain_indexes (table : string) (ks : list table_constraint) : list mindex :=
+  flat_map (fun k => match k with
                      | CIndex n cols => [mkMIndex (build_index_name table cols n) cols false false]
                      | _ => []
                      end) ks.
+(* unique keys first, then plain keys, each in constraint order (the layout of insert_index) *)
+Definition explicit_indexes (table : string) (ks : list table_constraint) : list mindex :=
+  unique_indexes table ks ++ plain_indexes table ks.
 
 (* the implicit index of each foreign key that no other key serves, in constraint order [M10, M-GEN] *)
 Fixpoint generated_indexes (keys : list (list string)) (fks : list fkdef) : list mindex :=
